@@ -341,7 +341,10 @@ def t_context():
     docs = [[1, {}, [], "a", None, {"a": 1}, [1]], {"x": {}, "y": 1, "z": {"a": 1}}]
     try:
         for tpl, ctx, doc in itertools.product(CTX_TEMPLATES, CTX_VALUES, docs):
-            for text in ("$" + tpl, "$.." + tpl):
+            # alone, and as an operand of a compound query in every operand position (each operand of | and & must be
+            # handed the caller's context by the async twin too)
+            for text in ("$" + tpl, "$.." + tpl, "$[*] & $" + tpl, "$" + tpl + " & $[*]", "$" + tpl + " | $" + tpl,
+                         "$.* & $[*] & $" + tpl, "$.* | $[*] & $.." + tpl):
                 for variant in ("plain", "wrapped"):
                     judge(stats, loop, text, doc, ctx, variant, rng)
                     n += 1
@@ -349,7 +352,7 @@ def t_context():
     finally:
         loop.close()
     stats.subspaces.append({"name": "24 uses of the filter-context identifier (bare, rooted, nested, as function argument) x 6 contexts "
-                                    "(none, empty, ...) x 2 documents x {child, descendant} x {plain, async-getter}", "size": n, "exhaustive": True})
+                                    "(none, empty, ...) x 2 documents x {child, descendant, 5 compound operand positions} x {plain, async-getter}", "size": n, "exhaustive": True})
     return stats
 
 
